@@ -519,6 +519,29 @@ pub fn c05(a: &Analysis<'_>, out: &mut Vec<Violation>) {
             }
         }
     }
+    // "... whose events carry current=k, left=N-k on attempt k" - Log events (tracing collector) included: a log
+    // delivered while attempt j of a scenario is in progress must not carry the counter of its attempt k != j
+    for idxs in a.by_scenario.values() {
+        if idxs.len() < 2 {
+            continue;
+        }
+        'sc: for &k in idxs {
+            let ak = &a.attempts[k];
+            for &l in &ak.logs {
+                for &j in idxs {
+                    let aj = &a.attempts[j];
+                    if j != k && aj.started.is_some_and(|s| s < l) && aj.finished.is_none_or(|f| l < f) {
+                        out.push(v(
+                            "C05",
+                            "log-carries-counter-of-another-attempt",
+                            format!("{}: {} arrives while attempt {:?} is in progress, carrying the counter {:?}", ak.scenario, evs[l].short(), aj.retries, ak.retries),
+                        ));
+                        break 'sc;
+                    }
+                }
+            }
+        }
+    }
     retry_eligibility(a, out);
     // "... while other scenarios keep running meanwhile": a retry waiting for its delay must not hold
     // ready concurrent scenarios back (same quiescent-point argument as C06's work conservation,
